@@ -57,6 +57,10 @@ type Spec struct {
 	AppState      json.RawMessage `json:"app_state"`
 	Blacklist     []string        `json:"blacklist"` // bech32 account addresses the node refuses to pay (blocked recipients)
 	Blocks        []BlockSpec     `json:"blocks"`
+	// block indices (0-based) before which a `restarted` execution restarts, in addition to one third and two
+	// thirds of the history: chosen by the pilot right after blocks whose rejected transactions edited and then
+	// read a shared object, and right before first readers
+	RestartBefore []int `json:"restart_before,omitempty"`
 }
 
 // what one execution of a block showed — exactly the consensus-relevant outputs
@@ -219,6 +223,19 @@ var modeNames = map[int]string{ModePlain: "plain", ModeTwin: "twin(sim+query+che
 // one on the same database just before block index i (0-based) — at one third and two thirds of the history.
 func IsRestartPoint(n, i int) bool { return i > 0 && (i == n/3 || i == 2*n/3) }
 
+// IsRestart: is block index i preceded by a restart in the `restarted` mode of this history?
+func (s *Spec) IsRestart(i int) bool {
+	if IsRestartPoint(len(s.Blocks), i) {
+		return true
+	}
+	for _, r := range s.RestartBefore {
+		if r == i && i > 0 {
+			return true
+		}
+	}
+	return false
+}
+
 // Execute re-executes a recorded history in a fresh application instance.
 func Execute(spec *Spec) Exec { return ExecuteMode(spec, ModePlain) }
 
@@ -230,7 +247,7 @@ func ExecuteMode(spec *Spec, mode int) (ex Exec) {
 	}()
 	c := NewChain(spec)
 	for i, b := range spec.Blocks {
-		if mode == ModeRestart && IsRestartPoint(len(spec.Blocks), i) {
+		if mode == ModeRestart && spec.IsRestart(i) {
 			c.Restart()
 		}
 		prop, _ := hex.DecodeString(b.Proposer)
